@@ -32,6 +32,57 @@ pub fn handle(op: &str, a: &[&str]) -> Option<String> {
             }
         }
         ("u.sub_from_u128", [s, y]) => ok_u(&(s.parse::<u128>().ok()? - parse_u(y)?)),
+        ("u.add_u64", [x, s]) => {
+            let sc = s.parse::<u64>().ok()?;
+            let a = parse_u(x)?;
+            let mut b = a.clone();
+            b += sc;
+            let c = &a + sc;
+            if b != c || (sc <= u32::MAX as u64 && &a + (sc as u32) != c) {
+                return Some("panic internal:scalar-forms-disagree".to_string());
+            }
+            ok_u(&b)
+        }
+        ("u.add_u128", [x, s]) => {
+            let sc = s.parse::<u128>().ok()?;
+            let a = parse_u(x)?;
+            let mut b = a.clone();
+            b += sc;
+            if b != &a + sc {
+                return Some("panic internal:scalar-forms-disagree".to_string());
+            }
+            ok_u(&b)
+        }
+        ("u.sub_u64", [x, s]) => {
+            let sc = s.parse::<u64>().ok()?;
+            let a = parse_u(x)?;
+            let by_op = std::panic::catch_unwind(|| &a - sc);
+            let by_assign = std::panic::catch_unwind(|| {
+                let mut b = a.clone();
+                b -= sc;
+                b
+            });
+            match (by_op, by_assign) {
+                (Ok(p), Ok(q)) if p == q => ok_u(&p),
+                (Err(e), Err(_)) => std::panic::resume_unwind(e),
+                _ => "panic internal:scalar-forms-disagree".to_string(),
+            }
+        }
+        ("u.sub_u128", [x, s]) => {
+            let sc = s.parse::<u128>().ok()?;
+            let a = parse_u(x)?;
+            let by_op = std::panic::catch_unwind(|| &a - sc);
+            let by_assign = std::panic::catch_unwind(|| {
+                let mut b = a.clone();
+                b -= sc;
+                b
+            });
+            match (by_op, by_assign) {
+                (Ok(p), Ok(q)) if p == q => ok_u(&p),
+                (Err(e), Err(_)) => std::panic::resume_unwind(e),
+                _ => "panic internal:scalar-forms-disagree".to_string(),
+            }
+        }
         ("i.add", [x, y]) => ok_i(&(&parse_i(x)? + &parse_i(y)?)),
         ("i.add_assign", [x, y]) => {
             let mut v = parse_i(x)?;
